@@ -52,6 +52,12 @@ func main() {
 		r := &Run{P: p, Funcs: map[string]bool{}, Regions: map[string]int{}}
 		reg := r.Region(*flagInv, regionEntries[*flagInv], false)
 		fmt.Println("region", *flagInv, "functions:", r.Regions[*flagInv])
+		if os.Getenv("ZCHECK_CACHES") != "" {
+			for _, h := range r.cacheInventory(strings.Split(os.Getenv("ZCHECK_CACHES"), ",")) {
+				fmt.Printf("%q: \"\", // %s %s:%d\n", h.Fn, h.What, h.File, h.Line)
+			}
+			return
+		}
 		if os.Getenv("ZCHECK_PANICS") != "" {
 			for _, h := range r.panicInventory(reg) {
 				fmt.Printf("%q: \"\", // %s:%d\n", h.Fn+"|"+h.What, h.File, h.Line)
